@@ -111,6 +111,17 @@ elif name=='j': # NewModule of a single-builder module returns the builder's err
 					return err
 				}
 				return ModuleError{Module: name, Cause: err}''')
+elif name=='k': # D25 regression: every sibling counts as registered
+    sub('provider.go','''func (p *provider) isRegistered(d *Descriptor) bool {
+''','''func (p *provider) isRegistered(d *Descriptor) bool {
+	if d != nil {
+		return true
+	}
+''')
+elif name=='l': # D26: the tag check moved after the field's registration (half-applied refusal is still rolled back, but a colliding field now reports already-registered first)
+    sub('collection.go','''			// A service is either keyed or grouped, as for godi.Name and godi.Group
+			if field.Key != nil && field.Group != "" {''','''			// A service is either keyed or grouped, as for godi.Name and godi.Group
+			if false && field.Key != nil && field.Group != "" {''')
 elif name=='none':
     pass
 else:
